@@ -14,7 +14,7 @@ RULE = ('cases = role name X (1-6 abstract letters: ASCII letters, digits, punct
         'without the keys (string and non-string scalar values) x credentials with 0-6 roles (duplicates, case variants), '
         'an empty list, or no roles entry x the check alone, under not, or inside a random expression with other role '
         'checks. Non-trivial = the reference allows for some role of the credentials AND X is spelled in a different '
-        'case than the matching role, or denies although a role shares a prefix with X; distinct = distinct (rule, target, creds).')
+        'case than the matching role, or denies although a role shares a prefix with X; distinct = distinct (rule, target, creds). Stratum `sequence`: one credentials object whose roles list is mutated in place (append, remove, item assignment, clear) between consecutive calls.')
 ASSUMPTIONS = ['letters with context-dependent or one-to-many case mappings are excluded, as the quantifier says',
                'a stray % outside %(key)s is excluded (statement is about %(key)s placeholders)',
                'credentials roles are a list of strings']
@@ -22,7 +22,7 @@ LEVEL_TEXT = ('Seeded sampling of the (role name, form, target, credentials, con
               'independent of any case-folding routine; the space is infinite, so sampling with a structured generator is the level.')
 LEVEL_NOTE = 'trusted: the letter table is verified at start-up to be one-to-one under str.lower/str.upper'
 PLAN = {'quick': dict(shards=4, wall=60), 'thorough': dict(shards=16, wall=400)}
-MIN = {'evaluations': 5000, 'allow_decisions': 500, 'deny_decisions': 500, 'case_variant_matches': 100}
+MIN = {'evaluations': 5000, 'allow_decisions': 500, 'deny_decisions': 500, 'case_variant_matches': 100, 'sequence_decisions': 1000}
 ANCHORS = ['oslo_policy._checks:RoleCheck.__call__', 'oslo_policy.policy:Enforcer.enforce']
 REQUIRED_ANCHORS = ['oslo_policy.policy:Enforcer.enforce']
 N = {'quick': 100000, 'thorough': 3000000}
@@ -155,6 +155,80 @@ def check_case(ctx, real, case):
                                   'expected': case['want'], 'observed': got})
 
 
+def check_sequence(ctx, real, rnd):
+    """The same credentials object - and the same roles list object - is reused across calls and mutated in place
+    between them (grant, revoke, replace, clear): every call must reflect the list's content at that moment."""
+    policy, enf = real
+    pool = [mk_name(rnd) for _ in range(3)]
+    x = rnd.choice(pool)
+    form = rnd.choice(['lit', 'ph'])
+    target = {}
+    if form == 'lit':
+        rule = 'role:' + spell(rnd, x)
+    else:
+        rule = 'role:%(k)s'
+        target['k'] = spell(rnd, x)
+    if rule.endswith(')'):
+        return
+    negate = rnd.random() < 0.3
+    text = ('not ' + rule) if negate else rule
+    enf.set_rules(policy.Rules.from_dict({'p': text}))
+    ids = []                       # abstract ids, parallel to the live list
+    live = []
+    creds = {'roles': live, 'user_id': 'u'}
+    steps = []
+    for step in range(rnd.randint(2, 6)):
+        op = rnd.choice(['append', 'append-x', 'remove', 'clear', 'setitem', 'none'])
+        if op == 'append':
+            r = rnd.choice(pool)
+            ids.append(r)
+            live.append(spell(rnd, r))
+        elif op == 'append-x':
+            ids.append(x)
+            live.append(spell(rnd, x))
+        elif op == 'remove' and live:
+            i = rnd.randrange(len(live))
+            del ids[i]
+            del live[i]
+        elif op == 'clear':
+            del ids[:]
+            del live[:]
+        elif op == 'setitem' and live:
+            i = rnd.randrange(len(live))
+            r = rnd.choice(pool + [x])
+            ids[i] = r
+            live[i] = spell(rnd, r)
+        steps.append([op, list(live)])
+        want = any(r == x for r in ids)
+        want = (not want) if negate else want
+        try:
+            got = bool(enf.enforce('p', dict(target), creds))
+        except Exception as e:
+            got = 'EXC:' + type(e).__name__
+        ctx.count('sequence_decisions')
+        ctx.count('allow_decisions' if got is True else 'deny_decisions' if got is False else 'exceptions')
+        if got != want:
+            ctx.violation('stale-decision-after-in-place-role-change', dict(sequence=True, rule=text, target=target, steps=steps),
+                          {'rule': text, 'target': target, 'roles_list_history': steps, 'expected': want, 'observed': got})
+            return
+    ctx.case([text, target, steps], nontrivial=True, stratum='sequence')
+
+
+def replay_sequence(ctx, real, case):
+    policy, enf = real
+    enf.set_rules(policy.Rules.from_dict({'p': case['rule']}))
+    live = []
+    creds = {'roles': live, 'user_id': 'u'}
+    seen = []
+    for op, content in case['steps']:
+        live[:] = content
+        seen.append(bool(enf.enforce('p', dict(case['target']), creds)))
+        fresh = bool(enf.enforce('p', dict(case['target']), {'roles': list(content), 'user_id': 'u'}))
+        if seen[-1] != fresh:
+            ctx.violation('stale-decision-after-in-place-role-change', case, {'step': [op, content], 'same_list_object': seen[-1], 'fresh_list': fresh})
+            return
+
+
 def run(ctx):
     self_check()
     from oslo_policy import policy
@@ -167,10 +241,14 @@ def run(ctx):
         check_case(ctx, (policy, enf), case)
         if i % 4000 == 0:
             ctx.sample({k: case[k] for k in ('rule', 'target', 'creds', 'want')})
+        if i % 5 == 0:
+            check_sequence(ctx, (policy, enf), ctx.rnd)
     ctx.stratum('random', exhaustive=False)
 
 
 def replay(ctx, case):
     from oslo_policy import policy
     enf = policy.Enforcer(env.fresh_conf(), use_conf=False)
+    if case.get('sequence'):
+        return replay_sequence(ctx, (policy, enf), case)
     check_case(ctx, (policy, enf), case)
